@@ -52,11 +52,11 @@ Step == nops < MaxOps /\ nops' = nops + 1
 H(r) == hist' = Append(hist, r)
 
 ImportName(p, n) ==
-  /\ PathInfo[p].std # "" => n = PathInfo[p].std     \* domain: no false claims about the standard library
-  /\ Find2(claims, p) \subseteq {n}                 \* domain: a package has one name
+  /\ (PathInfo[p].std # "" /\ n # "") => n = PathInfo[p].std     \* domain: no false claims about the standard library
+  /\ n = "" \/ Find2(claims, p) \subseteq {n}      \* domain: a package has one name (the empty name claims nothing: it withdraws a hint)
   /\ Step /\ H([a |-> "ImportName", p |-> p, n |-> n])
   /\ hints' = Put(hints, p, Def(n, FALSE))
-  /\ claims' = IF p = "C" THEN claims ELSE Put(claims, p, Find2(claims, p) \cup {n})   \* nothing renames "C"
+  /\ claims' = IF p = "C" \/ n = "" THEN claims ELSE Put(claims, p, Find2(claims, p) \cup {n})   \* nothing renames "C"
   /\ UNCHANGED <<local, prefix, imps, body, preamble, fmeta, obs, bound, anons, nrend>>
 ImportAlias(p, n) ==
   /\ Step /\ H([a |-> "ImportAlias", p |-> p, n |-> n])
